@@ -50,7 +50,7 @@ def sweep(rep, scoped_cases, monitors_for, budgets=None, light=True,
     if deadline is None:
         import os
         cap = float(os.environ.get("VERIF_TIME_CAP", "0") or 0) or (
-            1500 if rep.tier == "thorough" else 400)
+            2700 if rep.tier == "thorough" else 400)
         deadline = rep.t0 + cap
 
     def work(i, item):
